@@ -43,7 +43,7 @@ def freeze_sweep(prog_path, workdir, maxp=40, maxq=60, jobs=16):
         return list(ex.map(one, jobs_list))
 
 
-def sweep(prog_path, workdir, maxp=120, jobs=16, two_level=False):
+def sweep(prog_path, workdir, maxp=120, jobs=16, two_level=False, three_level=False):
     os.makedirs(workdir, exist_ok=True)
     prog = tracemod.parse_program(open(prog_path).read())
     n = len(prog["threads"])
@@ -63,6 +63,18 @@ def sweep(prog_path, workdir, maxp=120, jobs=16, two_level=False):
                         sc = "script:%dx%d,%dx%d,%dx0" % (v, p, u, q, v)
                         base = os.path.join(workdir, "%s-2l-%s" % (name, hashlib.sha1(sc.encode()).hexdigest()[:8]))
                         jobs_list.append((prog_path, 0, sc, base))
+    if three_level and n >= 2:
+        # V runs p steps, U runs q steps, V runs r (few) steps, U runs to completion, V finishes
+        for v in range(n):
+            for u in range(n):
+                if u == v:
+                    continue
+                for p in range(1, min(maxp, 44)):
+                    for q in range(1, min(maxp, 44), 2):
+                        for r in (1, 2, 3):
+                            sc = "script:%dx%d,%dx%d,%dx%d,%dx0,%dx0" % (v, p, u, q, v, r, u, v)
+                            base = os.path.join(workdir, "%s-3l-%s" % (name, hashlib.sha1(sc.encode()).hexdigest()[:8]))
+                            jobs_list.append((prog_path, 0, sc, base))
     def one(j):
         return corr.run_program(j[0], j[1], j[2], j[3], family="corpus")
     with ThreadPoolExecutor(max_workers=jobs) as ex:
